@@ -25,28 +25,29 @@ type deferRec struct {
 
 type State struct {
 	localNames map[string]Term // constants naming large local values (see localEnv)
-	fe      *FnExec
-	ctx     Ctx
-	heap    map[string]Term
-	now     Term
-	locals  map[*ssa.Alloc]SVal
-	vals    map[ssa.Value]SVal
-	binds   map[string]Binding
-	facts   map[string]bool
-	loops   []*Loop
-	defers  []deferRec
-	prev    *ssa.BasicBlock
-	trace   []string
-	fresh   []Term
-	dead    bool
-	callCnt map[string]int  // calls on this path (static index for callarg/callres/callseq)
-	callNum map[string]Term // symbolic number of calls so far (havoc'ed at loop heads): ncalls
-	callLog map[string]callRec
-	recDefs map[string]string
-	callSeq int
-	mapVer  Term
-	escaped []*ssa.Alloc
-	boxed   map[string]types.Type // interface payload reference -> static type of the boxed pointer
+	fe         *FnExec
+	ctx        Ctx
+	heap       map[string]Term
+	now        Term
+	locals     map[*ssa.Alloc]SVal
+	vals       map[ssa.Value]SVal
+	binds      map[string]Binding
+	facts      map[string]bool
+	loops      []*Loop
+	defers     []deferRec
+	frames     []inlineFrame // inlined helper calls in progress (innermost last)
+	prev       *ssa.BasicBlock
+	trace      []string
+	fresh      []Term
+	dead       bool
+	callCnt    map[string]int  // calls on this path (static index for callarg/callres/callseq)
+	callNum    map[string]Term // symbolic number of calls so far (havoc'ed at loop heads): ncalls
+	callLog    map[string]callRec
+	recDefs    map[string]string
+	callSeq    int
+	mapVer     Term
+	escaped    []*ssa.Alloc
+	boxed      map[string]types.Type // interface payload reference -> static type of the boxed pointer
 }
 
 // mapGet: abstract map content, an uninterpreted function of the map reference,
@@ -150,6 +151,7 @@ func (st *State) clone() *State {
 	}
 	n.loops = append([]*Loop(nil), st.loops...)
 	n.defers = append([]deferRec(nil), st.defers...)
+	n.frames = append([]inlineFrame(nil), st.frames...)
 	n.trace = append([]string(nil), st.trace...)
 	n.fresh = append([]Term(nil), st.fresh...)
 	return &n
